@@ -942,8 +942,14 @@ func (ex *Exec) instr(in ssa.Instruction) {
 			r := ex.newRef("conv." + i.Name())
 			ln := "(strlen " + x.T + ")"
 			if el := tt.Underlying().(*types.Slice).Elem(); vc.sortOf(el) != bvSort(8) {
-				ln = vc.fresh("runes.len", sBV64)
+				// the runes of a string are a function of the string (uninterpreted:
+				// UTF-8 decoding is not modelled); contracts name them with runeAt(s, i)
+				ln = vc.uf("str_runecount", []string{sStr}, sBV64, x.T)
 				vc.assume(fmt.Sprintf("(and (bvsle (_ bv0 64) %s) (bvsle %s (strlen %s)))", ln, ln, x.T))
+				if vc.sortOf(el) == bvSort(32) {
+					runes := vc.uf("str_runes", []string{sStr}, "(Array (_ BitVec 64) (_ BitVec 32))", x.T)
+					vc.assume(fmt.Sprintf("(= (select %s %s) %s)", h.get(vc.elemsArr(el)), r, runes))
+				}
 			}
 			ex.setVal(i, fmt.Sprintf("(mk_slice %s (_ bv0 64) %s %s)", r, ln, ln))
 			return
